@@ -2,6 +2,7 @@ use bytes::Buf;
 use serde::{Deserialize, Serialize};
 use std::{
     fmt,
+    future::{self, Future},
     io::{self, ErrorKind},
     pin::Pin,
     sync::Mutex,
@@ -99,6 +100,12 @@ impl<Codec> Receiver<Codec> {
     }
 }
 
+/// A future that reports the specified error every time it is polled.
+fn failed<T>(err: &io::Error) -> impl Future<Output = Result<T, io::Error>> + Send + 'static {
+    let (kind, msg) = (err.kind(), err.to_string());
+    future::poll_fn(move |_| Poll::Ready(Err(io::Error::new(kind, msg.clone()))))
+}
+
 async fn receive_data(mut bin_receiver: bin::Receiver) -> Result<(Option<DataBuf>, bin::Receiver), io::Error> {
     let chmux_receiver =
         bin_receiver.get().await.map_err(|e| io::Error::new(ErrorKind::ConnectionRefused, e.to_string()))?;
@@ -117,7 +124,14 @@ where
     /// Polls to complete any pending receive or verify operation.
     fn poll_complete(&mut self, cx: &mut Context<'_>) -> Poll<io::Result<()>> {
         if let ReceiverState::Receiving(ref mut fut) = self.state {
-            let (data, bin_receiver) = ready!(fut.poll(cx))?;
+            let (data, bin_receiver) = match ready!(fut.poll(cx)) {
+                Ok(res) => res,
+                Err(err) => {
+                    // The finished future must not be polled again; keep reporting the failure.
+                    fut.set(failed(&err));
+                    return Poll::Ready(Err(err));
+                }
+            };
             // Only keep bin_receiver if we got data; on EOF (None) we won't need it
             if data.is_some() {
                 *self.bin_receiver.lock().unwrap() = Some(bin_receiver);
@@ -127,7 +141,14 @@ where
         }
 
         if let ReceiverState::VerifyingSize(ref mut fut) = self.state {
-            let expected_size = ready!(fut.poll(cx))?;
+            let expected_size = match ready!(fut.poll(cx)) {
+                Ok(size) => size,
+                Err(err) => {
+                    // The finished future must not be polled again; keep reporting the failure.
+                    fut.set(failed(&err));
+                    return Poll::Ready(Err(err));
+                }
+            };
             self.state = ReceiverState::Idle;
 
             // Store the received size
